@@ -368,6 +368,7 @@ func (r *Run) Finish(evaluations int64, rule string) {
 	}
 	nvio := len(r.violations)
 	ndist := len(r.distinct)
+	nsamples := len(r.samples)
 	r.mu.Unlock()
 
 	if r.Replay == "" {
@@ -397,6 +398,10 @@ func (r *Run) Finish(evaluations int64, rule string) {
 	}
 	if r.Replay == "" && (evaluations == 0 || ndist < 2) {
 		fmt.Println("HARNESS-FAILURE: nothing observed")
+		os.Exit(ExitHarness)
+	}
+	if r.Replay == "" && nsamples == 0 {
+		fmt.Println("HARNESS-FAILURE: the run recorded no sample case for its evidence")
 		os.Exit(ExitHarness)
 	}
 	os.Exit(ExitHeld)
